@@ -4,6 +4,7 @@
 mod binder;
 mod common;
 mod drive_gateway;
+mod gas;
 mod gateway;
 mod token;
 mod probe;
